@@ -278,7 +278,7 @@ Proof. intros (Hx & Hp & Hq).
 
 Theorem fixed_point k : at_fix (iter k (init F frz x0)).
 Proof. induction k as [|k IH].
-  - unfold at_fix. cbn [C05_Dykstra.iter init sx sp sq]. repeat split; intros i Hi; [now apply frz_spec|reflexivity|reflexivity].
+  - unfold at_fix. cbn [C05_Dykstra.iter init sx sp sq]. repeat split; intros i Hi; try reflexivity. now apply frz_spec.
   - cbn [C05_Dykstra.iter]. now apply step_fix. Qed.
 
 Lemma br_fix s s' : at_fix s -> at_fix s' -> br F n s s' = 0.
@@ -297,7 +297,7 @@ Definition it (j : nat) : dstate F := iter j s0.
 Definition errf (j : nat) : option F := if (1 <=? j)%nat then Some (br F n (it j) (it (S j))) else None.
 Definition stops_at (j : nat) : bool := match errf j with Some v => ltb F v eps | None => false end.
 
-Record loop_post (k fuel : nat) (r : run F) : Prop := {
+Record loop_post (k fuel : nat) (r : runres F) : Prop := {
   lp_lo : (k + (if fuel then 0 else 1) <= r_steps r)%nat;
   lp_hi : (r_steps r <= k + fuel)%nat;
   lp_final : r_final r = it (r_steps r);
@@ -310,9 +310,7 @@ Record loop_post (k fuel : nat) (r : run F) : Prop := {
 Lemma loop_spec fuel : forall k,
   loop_post k fuel (loop fuel k (it k) (map it (seq 0 (S k))) (map errf (seq 0 k))).
 Proof. induction fuel as [|f IH]; intros k.
-  - cbn [C05_Dykstra.loop]. constructor; cbn [r_steps r_final r_hist r_errs r_stopped]; try reflexivity; try lia.
-    + discriminate.
-    + intros _. lia.
+  - cbn [C05_Dykstra.loop]. constructor; cbn [r_steps r_final r_hist r_errs r_stopped]; try reflexivity; try lia; try discriminate; intros; lia.
   - cbn [C05_Dykstra.loop].
     assert (Hs : step k (it k) = it (S k)) by reflexivity. rewrite Hs.
     assert (He : (if (1 <=? k)%nat then Some (br F n (it k) (it (S k))) else None) = errf k) by reflexivity.
@@ -322,13 +320,22 @@ Proof. induction fuel as [|f IH]; intros k.
     assert (Hr : map errf (seq 0 k) ++ [errf k] = map errf (seq 0 (S k))).
     { rewrite (seq_S k 0), map_app. reflexivity. }
     rewrite Hh, Hr. fold (stops_at k). destruct (stops_at k) eqn:Est.
-    + constructor; cbn [r_steps r_final r_hist r_errs r_stopped]; try reflexivity; try lia.
-      * intros _. split; [lia|]. replace (S k - 1)%nat with k by lia. exact Est.
-      * discriminate.
+    + constructor; cbn [r_steps r_final r_hist r_errs r_stopped]; try reflexivity; try lia; try discriminate;
+        try (intros _; split; [lia|]; replace (S k - 1)%nat with k by lia; exact Est); intros; lia.
     + destruct (IH (S k)) as [a b c d e g h i]. constructor; try assumption; try lia.
       * intros T. destruct (g T) as [g1 g2]. split; [lia|exact g2].
       * intros T. rewrite (h T). lia.
       * intros j Hj1 Hj2. destruct (Nat.eq_dec j k) as [->|Hne]; [exact Est|]. apply i; lia. Qed.
+
+(* a run that ended through `break` does not depend on how much fuel was left *)
+Lemma loop_fuel_mono f : forall f' k s h e, (f <= f')%nat ->
+  r_stopped (loop f k s h e) = true -> loop f' k s h e = loop f k s h e.
+Proof. induction f as [|f IH]; intros f' k s h e Hf Hs.
+  - cbn in Hs. discriminate.
+  - destruct f' as [|f']; [lia|]. cbn [C05_Dykstra.loop] in *.
+    destruct (match (if (1 <=? k)%nat then Some (br F n s (step k s)) else None) with
+              | Some v => ltb F v eps | None => false end); [reflexivity|].
+    apply IH; [lia|exact Hs]. Qed.
 End Loop.
 
 Theorem run_history (PA PB : nat -> vec -> vec) eps max_iter x0 :
@@ -388,4 +395,35 @@ Proof. intros fA fB Hm He.
   - rewrite Hf, St. apply (fixed_point PA PB x0 fA fB).
   - rewrite Hf, St. apply (fixed_point PA PB x0 fA fB).
   - rewrite Her, St. cbn [seq map]. unfold errf, it. cbn [Nat.leb]. now rewrite B1. Qed.
+
+(* ------------------------------------------------------------------ both values of mode_proj_order *)
+Section Modes.
+Context (Peq Pineq : nat -> vec -> vec) (E I : vec -> Prop).
+Hypothesis obE : obtuse E Peq.
+Hypothesis obI : obtuse I Pineq.
+
+Theorem invariant_mode (b : bool) x0 k : forall i, (i < n)%nat ->
+  sx (iter_mode F frz Peq Pineq b k (init F frz x0)) i + sp (iter_mode F frz Peq Pineq b k (init F frz x0)) i
+    + sq (iter_mode F frz Peq Pineq b k (init F frz x0)) i = x0 i.
+Proof. unfold iter_mode. apply invariant. Qed.
+
+Theorem certificate_mode (b : bool) x0 k z : (1 <= k)%nat -> E z -> I z ->
+  dot n (vsub x0 (sx (iter_mode F frz Peq Pineq b k (init F frz x0)))) (vsub z (sx (iter_mode F frz Peq Pineq b k (init F frz x0))))
+    <= gap F n (iter_mode F frz Peq Pineq b k (init F frz x0)).
+Proof. intros Hk Ez Iz. unfold iter_mode. destruct b; cbn [first_proj second_proj].
+  - now apply (certificate Peq Pineq E I obE obI).
+  - now apply (certificate Pineq Peq I E obI obE). Qed.
+
+(* the two orders, stopped anywhere (k, k' >= 1): both iterates satisfy the certificate for the SAME set E /\ I,
+   hence (two_runs_agree) they differ by at most their gaps plus infeasibilities *)
+Theorem orders_agree x0 k k' (w w' : vec) : (1 <= k)%nat -> (1 <= k')%nat -> E w -> I w -> E w' -> I w' ->
+  let s := iter_mode F frz Peq Pineq true k (init F frz x0) in
+  let s' := iter_mode F frz Peq Pineq false k' (init F frz x0) in
+  dist2 (sx s) (sx s') <= gap F n s + gap F n s' + dot n (vsub x0 (sx s)) (vsub (sx s') w')
+                          + dot n (vsub x0 (sx s')) (vsub (sx s) w).
+Proof. intros Hk Hk' Ew Iw Ew' Iw' s s'.
+  apply (two_runs_agree (fun z => E z /\ I z)); try (split; assumption).
+  - intros z [Ez Iz]. now apply (certificate_mode true).
+  - intros z [Ez Iz]. now apply (certificate_mode false). Qed.
+End Modes.
 End Proofs.
